@@ -196,9 +196,18 @@ def run_case(desc):
     ok, r2 = call(run_sbc, s, p, rarg)
     if ok and cluster_signature(r2[1]) != sig:
         out.fail("deterministic", "a second call on a fresh SBC() with identical arguments returns different clusters")
-    ok, r3 = call(run_sbc, s, p, rarg, sbc)
-    if ok and cluster_signature(r3[1]) != sig:
-        out.fail("deterministic-same-instance", "a second call on the same SBC instance returns different clusters")
+    # history: the same instance clusters a different structure in between
+    if n >= 2:
+        other = s[[i for i in range(n) if i % 2 == 0]]
+        ro, _ = radii_for(p, other.get_atomic_numbers())
+        call(run_sbc, other, p, ro, sbc)
+        ok, r4 = call(run_sbc, s, p, rarg, sbc)
+        if ok and cluster_signature(r4[1]) != sig:
+            out.fail("deterministic-same-instance", "the same SBC instance returns different clusters for the same input after clustering another structure in between")
+    else:
+        ok, r3 = call(run_sbc, s, p, rarg, sbc)
+        if ok and cluster_signature(r3[1]) != sig:
+            out.fail("deterministic-same-instance", "a second call on the same SBC instance returns different clusters")
     unassigned = n - len(set(allidx))
     nc = len(cl)
     out.cls("nclusters=%s" % (nc if nc < 3 else ">=3"))
